@@ -150,6 +150,8 @@ def build(case, route, croute, variant, ns):
             if a["k"] == "n":
                 return float(fr(a["v"])) / cl
             return al.Stream(container([float(fr(x)) / cl for x in a["s"]], croute))
+        if variant % 2:
+            tl(0.25, 1.5).take(3)      # the oscillator object has been used before: no trace in the next use
         return tl(conv(case["step"]), conv(case["part"]))
     if g == "rs":
         sig = container([LinForm.sym(i + 1) for i in range(case["len"])], croute)
